@@ -28,6 +28,10 @@ type Cfg struct {
 	QMs      int64            `json:"max_queue_ms"`
 	Cap      int64            `json:"capacity"`
 	Specific map[string]int64 `json:"specific,omitempty"`
+	// First: instead of the arrival history, 2-3 callers send their first requests for one or two values at the
+	// same (frozen) instant under a reject rule with a long duration: a value's budget is threshold + burst,
+	// whoever arrives first and however the callers interleave
+	First bool `json:"first,omitempty"`
 }
 
 type P struct{}
@@ -35,11 +39,11 @@ type P struct{}
 func init() { harness.Register(P{}) }
 
 func (P) ID() string     { return "C05" }
-func (P) Engine() string { return "E1" }
+func (P) Engine() string { return "E1+E2" }
 
 func (P) Describe() harness.Description {
 	return harness.Description{
-		MustHit: []string{"request_without_selected_argument", "capacity_exceeded", "throttled_request_waited"},
+		MustHit: []string{"first_requests_of_a_value_from_several_callers", "request_without_selected_argument", "capacity_exceeded", "throttled_request_waited"},
 		Level:   "exploration",
 		Rule: "case = (one hotspot QPS rule: reject or throttling, value selected by index / negative index / attachment key, threshold 0-6, burst 0-3, duration 1-5 s, max queueing 0-3000 ms, specific-item table, parameter capacity default or 1-3; 30-150 requests over a value alphabet of 8 typed values with batches 1-4 and ticks biased to the duration and the pacing interval; Sleep captured at the clock seam). " +
 			"Per (rule,value) while the capacity was never exceeded: reject mode - admitted tokens <= (T+burst)+T*elapsed/D since first seen, <= 2(T+burst) in any window of length D, a value idle for more than D is granted any batch <= T; throttling - consecutive pass times >= floor(b*D/T) ms apart, every requested wait < max queueing time; T_v <= 0 => always rejected; requests without the selected argument are never limited; " +
@@ -53,6 +57,21 @@ func (P) Describe() harness.Description {
 var alphabet = []string{"i:0", "i:1", "i:2", "s:a", "s:b", "b:true", "f:1.5", "st:1"}
 
 func (P) Gen(rng *sim.Rng, tier string) *harness.Case {
+	if rng.Chance(0.08) {
+		cfg := Cfg{Origin: 1700000000000 + rng.U64Range(0, 100000), First: true, T: int64(rng.Range(1, 3)), Burst: int64(rng.Range(0, 2)), DSec: 3600, Cap: int64([]int{0, 0, 2}[rng.Intn(3)])}
+		k := rng.Range(2, 3)
+		callers := make([][]harness.Op, k)
+		for i := range callers {
+			for j, n := 0, rng.Range(1, 3); j < n; j++ {
+				callers[i] = append(callers[i], harness.Op{K: "req", E: rng.Intn(2)})
+			}
+		}
+		c := &harness.Case{Cfg: harness.MustJSON(cfg), Callers: callers}
+		c.Sched = harness.GenSched(rng, nil, 200*k)
+		c.Sched.MaxSteps = 50000
+		c.Sched.PostLoad = rng.Chance(0.5)
+		return c
+	}
 	cfg := Cfg{Origin: 1700000000000 + rng.U64Range(0, 100000), Throttle: rng.Chance(0.4)}
 	switch rng.Intn(5) {
 	case 0:
@@ -207,6 +226,10 @@ func (P) Exec(c *harness.Case) *harness.Outcome {
 		return o
 	}
 	env := harness.Reset(cfg.Origin*1e6, harness.DefaultGeometry())
+	if cfg.First {
+		execFirst(c, &cfg, o, env)
+		return o
+	}
 	clk := env.Clock
 	var lastSleep time.Duration
 	clk.OnSleep = func(d time.Duration) { lastSleep = d }
@@ -394,4 +417,57 @@ func satAdd(a, b int64) int64 {
 		return math.MaxInt64
 	}
 	return a + b
+}
+
+// execFirst: see Cfg.First. The clock stands still, so nothing is refilled: per value exactly
+// min(requests, threshold + burst) single-token requests are admitted.
+func execFirst(c *harness.Case, cfg *Cfg, o *harness.Outcome, env *harness.Env) {
+	if cfg.T <= 0 || cfg.Burst < 0 || cfg.T+cfg.Burst > 100 {
+		return
+	}
+	rule := &hotspot.Rule{ID: "first", Resource: "res-first", MetricType: hotspot.QPS, ControlBehavior: hotspot.Reject, ParamIndex: 0,
+		Threshold: cfg.T, BurstCount: cfg.Burst, DurationInSec: cfg.DSec, ParamsMaxCapacity: cfg.Cap}
+	if !harness.Call(o, "C05.panic", 0, func() { _, _ = hotspot.LoadRules([]*hotspot.Rule{rule}) }) {
+		return
+	}
+	k := len(c.Callers)
+	admitted := make([][2]int, k)
+	offered := [2]int{}
+	for _, l := range c.Callers {
+		for _, op := range l {
+			if op.K == "req" && op.E >= 0 && op.E < 2 {
+				offered[op.E]++
+			}
+		}
+	}
+	harness.RunE2(c, o, "C05", env.Clock, k, func(task int) {
+		for _, op := range c.Callers[task] {
+			if op.K != "req" || op.E < 0 || op.E > 1 {
+				continue
+			}
+			if e, _ := sentinel.Entry("res-first", harness.EntryOpts(1, false, []interface{}{[]string{"a", "b"}[op.E]}, nil, nil)...); e != nil {
+				admitted[task][op.E]++
+				e.Exit()
+			}
+		}
+	}, nil)
+	if o.Failed() {
+		return
+	}
+	o.Probe("first_requests_of_a_value_from_several_callers")
+	o.Nontrivial = true
+	for v := 0; v < 2; v++ {
+		got := 0
+		for t := range admitted {
+			got += admitted[t][v]
+		}
+		want := offered[v]
+		if int64(want) > cfg.T+cfg.Burst {
+			want = int(cfg.T + cfg.Burst)
+		}
+		if got != want {
+			o.Fail("C05.first-requests-budget", 0, "%d callers offered %d single-token requests for value %q at one instant under threshold %d + burst %d (duration %d s): %d were admitted, the budget of a value seen for the first time allows exactly %d", k, offered[v], []string{"a", "b"}[v], cfg.T, cfg.Burst, cfg.DSec, got, want)
+			return
+		}
+	}
 }
